@@ -166,7 +166,7 @@ def run(ctx: Ctx):
             endres = None
             for e in run_.events:
                 if e[0] == "w":
-                    cur_b = e[1]
+                    cur_b = e[1] if e[1] < 256 else None
                     hooks = []
                 elif e[0] == "H" and cur_b is not None:
                     hooks.append((p.hooks[e[1]], e[2]))
@@ -175,8 +175,10 @@ def run(ctx: Ctx):
                     cur_b = None
                     hooks = []
                 elif e[0] == "R" and e[1] == "C":
-                    last_v = max([i for i, x in enumerate(run_.events) if x[0] == "v"] or [0])
-                    endres = (e[3], e[5], e[7], [(p.hooks[h[1]], h[2]) for hi, h in enumerate(run_.events) if h[0] == "H" and hi > last_v])
+                    # hooks of the ENDCOPY step: after the end-of-sweep marker (each swept byte is followed by an end() on a copy whose
+                    # hooks are logged behind the byte's own record)
+                    last_w = max([i for i, x in enumerate(run_.events) if x[0] == "w" and x[1] == 256] or [0])
+                    endres = (e[3], e[5], e[7], [(p.hooks[h[1]], h[2]) for hi, h in enumerate(run_.events) if h[0] == "H" and hi > last_w])
             syms = list(per.items())
             if endres is not None:
                 syms.append((am.END, endres))
